@@ -82,6 +82,470 @@ Proof.
   destruct Hl as [Hl|[E|Hl]]; [left; auto|right; rewrite E; reflexivity|left; auto].
 Qed.
 
+
+(* ---------- the steps that change maps or lists ---------- *)
+Lemma lb_of w' w p : lives w' = lives w -> PoolConcProofs.caches w' = PoolConcProofs.caches w -> lb (getp w' p) = lb (getp w p).
+Proof. intros L K. unfold lb. rewrite (live_of_lives _ _ p L), (cache_of_caches _ _ p K). reflexivity. Qed.
+
+Lemma Jq_own_lt q h w p b : Jq C q h w -> In b (own (getp w p)) -> 1 <= b < fresh w.
+Proof.
+  intros (_ & (_ & P2 & _) & (_ & O2 & _) & _) Hb. destruct (bool_dec p q) as [->|N]; [exact (proj1 (P2 b Hb))|].
+  assert (p = negb q) as -> by (destruct p, q; try congruence; reflexivity). exact (proj1 (O2 b Hb)).
+Qed.
+Lemma Jq_own_disj q h w p p' b : Jq C q h w -> p <> p' -> In b (own (getp w p)) -> In b (own (getp w p')) -> False.
+Proof.
+  intros (_ & _ & _ & d) N H1 H2. destruct p, p', q; try congruence; cbn [negb getp] in *; eauto.
+Qed.
+
+Lemma attach_new_getp q w :
+  getp (attach_new C w q) q = relist (getp w q) (lfull (getp w q)) (lfree (getp w q) ++ [fresh w]) /\
+  getp (attach_new C w q) (negb q) = getp w (negb q) /\
+  (forall b, chain_of (attach_new C w q) b = chain_of (fst (new_buffer C w)) b).
+Proof.
+  unfold attach_new, new_buffer, set_lists, relist. cbv zeta. split; [rewrite getp_setp_eq; destruct q; reflexivity|].
+  split; [rewrite getp_setp_neq by (destruct q; discriminate); destruct q; reflexivity|]. intros b. apply chain_of_setp.
+Qed.
+
+Lemma attach_new_C q w : Jq C q None w -> Compl q None w -> Compl q None (attach_new C w q).
+Proof.
+  intros Jw H. destruct (attach_new_getp q w) as (Gq & Go & Ch).
+  pose proof (PoolConcProofs.chain_new_buffer C w HC) as CN. cbv zeta in CN. destruct CN as (Enb & Ech & _ & _ & Oth).
+  apply Compl_gen with (hq := None) (w := w); [exact H| | | |intros; discriminate].
+  - intros p b Hb. destruct (bool_dec p q) as [->|N].
+    + rewrite Gq in Hb. unfold relist, own in Hb. cbn [lfull lfree] in Hb. rewrite app_assoc in Hb. apply in_app_or in Hb.
+      destruct Hb as [Hb|[<-|[]]]; [left; exact Hb|right]. intros j Hj. rewrite Ch, <- Enb, Ech. apply PoolConcProofs.upto_In. lia.
+    + left. assert (p = negb q) as -> by (destruct p, q; try congruence; reflexivity). rewrite Go in Hb. exact Hb.
+  - intros p b j _ Hold Hc. left. rewrite Ch. assert (b <> snd (new_buffer C w)) as N by (rewrite Enb; pose proof (Jq_own_lt q None w p b Jw Hold); lia).
+    rewrite (proj1 (Oth b N)). exact Hc.
+  - intros p b j _ Hl. left. rewrite (lb_of _ w p (attach_new_lives C w q) (PoolConcProofs.attach_new_caches C w q)). exact Hl.
+Qed.
+
+Lemma take_C q w head rest :
+  Jq C q None w -> Compl q None w -> lfree (getp w q) = head :: rest ->
+  Compl q (Some (head, fb w head)) (fst (take w q)).
+Proof.
+  intros Jw H E. pose proof Jw as (_ & (_ & _ & P3 & _) & _).
+  assert (In head (lfree (getp w q))) as Hh by (rewrite E; left; reflexivity).
+  assert (In head (own (getp w q))) as Ho by (unfold own; apply in_or_app; auto).
+  destruct (PoolConcProofs.chain_take w head (P3 head Hh)) as (CT1 & CT2).
+  set (w1 := set_bytes w head (nx w head (fb w head)) (fc w head - 1)) in *.
+  assert (forall b, chain_of (fst (take w q)) b = chain_of w1 b) as Ch.
+  { intros b. unfold take. rewrite E. cbn [hd0 tl0 fst]. cbv zeta. fold w1. destruct (_ =? 0); [unfold set_lists; apply chain_of_setp|reflexivity]. }
+  assert (forall p b, In b (own (getp (fst (take w q)) p)) -> In b (own (getp w p))) as Sub.
+  { assert (forall p, getp w1 p = getp w p) as Gw1 by (intros p; unfold w1; apply getp_set_bytes).
+    intros p b. unfold take. rewrite E. cbn [hd0 tl0 fst]. cbv zeta. fold w1. destruct (_ =? 0).
+    - unfold set_lists. destruct (bool_dec p q) as [->|N].
+      + rewrite getp_setp_eq. unfold own. cbn [lfull lfree]. rewrite E. rewrite <- app_assoc. auto.
+      + rewrite getp_setp_neq by exact N. rewrite Gw1. auto.
+    - rewrite Gw1. auto. }
+  apply Compl_gen with (hq := None) (w := w); [exact H| | | |intros; discriminate].
+  - intros p b Hb. left. apply Sub. exact Hb.
+  - intros p b j Hb Hold Hc. rewrite Ch. destruct (Z.eq_dec b head) as [->|N].
+    + rewrite CT1 in Hc. destruct Hc as [<-|Hc]; [right|left; exact Hc]. split; [|reflexivity].
+      destruct (bool_dec p q) as [Ep|Np]; [exact Ep|]. exfalso. exact (Jq_own_disj q None w p q head Jw Np Hold Ho).
+    + left. rewrite (CT2 b N). exact Hc.
+  - intros p b j _ Hl. left. rewrite (lb_of _ w p (take_lives w q) (PoolConcProofs.take_caches w q)). exact Hl.
+Qed.
+
+(* effect of pvDeleteBlock on ownership and chains *)
+Lemma getp_set_lists_eq w q a b : getp (set_lists w q a b) q = relist (getp w q) a b.
+Proof. unfold set_lists, relist. rewrite getp_setp_eq. reflexivity. Qed.
+Lemma getp_set_lists_neq w q p a b : p <> q -> getp (set_lists w q a b) p = getp w p.
+Proof. intros N. unfold set_lists. apply getp_setp_neq. exact N. Qed.
+
+Lemma drop_effect w q b lf lr :
+  let w' := add_returned (set_bytes (set_lists w q lf lr) b 0 0) b in
+  getp w' q = relist (getp w q) lf lr /\ (forall p, p <> q -> getp w' p = getp w p) /\
+  (forall y, y <> b -> chain_of w' y = chain_of w y).
+Proof.
+  cbv zeta. split; [unfold set_lists, relist; destruct q; reflexivity|]. split.
+  - intros p N. unfold set_lists. destruct p, q; try congruence; reflexivity.
+  - intros y N. apply chain_of_ext.
+    + unfold set_lists. destruct q; simpl; apply upd_other; exact N.
+    + unfold set_lists. destruct q; simpl; apply upd_other; exact N.
+    + intros k. unfold set_lists. destruct q; reflexivity.
+Qed.
+
+Lemma pvDeleteBlock_effect q w bk :
+  Jq C q (Some bk) w ->
+  let w' := pvDeleteBlock C w q bk in
+  (forall p y, In y (own (getp w' p)) -> In y (own (getp w p))) /\
+  (forall p y, y <> fst bk -> In y (own (getp w p)) -> In y (own (getp w' p))) /\
+  (forall y, y <> fst bk -> chain_of w' y = chain_of w y) /\
+  (In (fst bk) (own (getp w' q)) -> chain_of w' (fst bk) = snd bk :: chain_of w (fst bk)).
+Proof.
+  intros Jw. pose proof (pushmove_J C q w bk Jw) as J2.
+  pose proof Jw as ((g1 & _) & (_ & _ & _ & _ & _ & _ & P7 & _) & _).
+  destruct (P7 bk (or_intror eq_refl)) as (_ & Nj & Ob).
+  destruct (PoolConcProofs.chain_push w (fst bk) (snd bk) (proj1 (g1 (fst bk))) Nj) as (CP1 & CP2).
+  pose proof (fun y => pushmove_own q w bk y Ob) as OwnIff.
+  cbv zeta. unfold pvDeleteBlock. cbv zeta.
+  set (w2 := if fc (push w bk) (fst bk) =? 1 then move_head (push w bk) q (fst bk) else push w bk) in *.
+  set (b := fst bk) in *.
+  assert (forall y, chain_of w2 y = chain_of (push w bk) y) as Ch2.
+  { intros y. unfold w2. destruct (_ =? 1); [unfold move_head, set_lists; apply chain_of_setp|reflexivity]. }
+  assert (forall p, p <> q -> getp w2 p = getp w p) as Oth2.
+  { intros p N. unfold w2. destruct (_ =? 1); [unfold move_head; rewrite getp_set_lists_neq by exact N|]; apply getp_push. }
+  assert (forall p y, In y (own (getp w2 p)) <-> In y (own (getp w p))) as Own2.
+  { intros p y. destruct (bool_dec p q) as [->|N]; [apply OwnIff|rewrite (Oth2 p N); reflexivity]. }
+  assert (forall y, y <> b -> chain_of w2 y = chain_of w y) as ChO by (intros y N; rewrite Ch2; apply CP2; exact N).
+  assert (chain_of w2 b = snd bk :: chain_of w b) as ChB by (rewrite Ch2; exact CP1).
+  clearbody w2.
+  (* the result is w2 or a drop of b *)
+  assert (forall lf lr, (forall y, In y (lf ++ lr) -> In y (own (getp w2 q)) /\ y <> b) ->
+                        (forall y, y <> b -> In y (own (getp w2 q)) -> In y (lf ++ lr)) ->
+     let w' := add_returned (set_bytes (set_lists w2 q lf lr) b 0 0) b in
+     (forall p y, In y (own (getp w' p)) -> In y (own (getp w p))) /\
+     (forall p y, y <> b -> In y (own (getp w p)) -> In y (own (getp w' p))) /\
+     (forall y, y <> b -> chain_of w' y = chain_of w y) /\
+     (In b (own (getp w' q)) -> chain_of w' b = snd bk :: chain_of w b)) as Drop.
+  { intros lf lr S1 S2. cbv zeta. destruct (drop_effect w2 q b lf lr) as (Gq & Go & Gc).
+    split; [|split; [|split]].
+    - intros p y Hy. apply Own2. destruct (bool_dec p q) as [->|N]; [rewrite Gq in Hy; unfold relist, own in Hy; cbn [lfull lfree] in Hy; apply S1; exact Hy|rewrite (Go p N) in Hy; exact Hy].
+    - intros p y N Hy. apply Own2 in Hy. destruct (bool_dec p q) as [->|Np]; [rewrite Gq; unfold relist, own; cbn [lfull lfree]; apply S2; assumption|rewrite (Go p Np); exact Hy].
+    - intros y N. rewrite (Gc y N). apply ChO. exact N.
+    - intros Hb. rewrite Gq in Hb. unfold relist, own in Hb. cbn [lfull lfree] in Hb. destruct (S1 b Hb) as (_ & F). congruence. }
+  destruct (Z.eqb_spec (fc w2 b) C) as [Fc|_].
+  2:{ split; [intros p y; apply Own2|]. split; [intros p y _; apply Own2|]. split; [exact ChO|intros _; exact ChB]. }
+  pose proof J2 as (_ & (P1 & _ & _ & P4 & _) & _). set (x := getp w2 q) in *.
+  assert (In b (own x)) as Ob2 by (apply OwnIff; exact Ob).
+  assert (In b (lfree x)) as Hbr.
+  { unfold own in Ob2. apply in_app_or in Ob2. destruct Ob2 as [H|H]; [specialize (P4 b H); lia|exact H]. }
+  unfold own in P1. pose proof P1 as P1'. apply NoDup_app_iff in P1'. destruct P1' as (NDf & NDr & Dfr).
+  destruct (lfree x) as [|h t] eqn:El; [destruct Hbr|]. cbn [hd0 tl0].
+  destruct (Z.eqb_spec b h) as [Ebh|Nbh].
+  - destruct (Z.eqb_spec (hd0 t) 0) as [_|Nt].
+    + split; [intros p y; apply Own2|]. split; [intros p y _; apply Own2|]. split; [exact ChO|intros _; exact ChB].
+    + unfold drop_head. fold x. rewrite El. cbn [tl0]. subst h. apply Drop.
+      * intros y Hy. pose proof (NoDup_remove_2 _ _ _ P1) as Nb. unfold own. fold x. rewrite El. rewrite !in_app_iff in *. simpl.
+        split; [tauto|]. intro; subst. tauto.
+      * intros y N Hy. unfold own in Hy. fold x in Hy. rewrite El in Hy. rewrite !in_app_iff in *. simpl in Hy. destruct Hy as [H|[H|H]]; auto. congruence.
+  - unfold drop_mid. fold x. rewrite El. apply Drop.
+    + intros y Hy. unfold own. fold x. rewrite El. rewrite !in_app_iff, !removez_In in *. tauto.
+    + intros y N Hy. unfold own in Hy. fold x in Hy. rewrite El in Hy. rewrite !in_app_iff, !removez_In in *. tauto.
+Qed.
+
+Lemma pvDeleteBlock_C q w bk : Jq C q (Some bk) w -> Compl q (Some bk) w -> Compl q None (pvDeleteBlock C w q bk).
+Proof.
+  intros Jw H. destruct (pvDeleteBlock_effect q w bk Jw) as (F1 & _ & F2 & F3). cbv zeta in *.
+  apply Compl_gen with (hq := Some bk) (w := w); [exact H| | | |].
+  - intros p b Hb. left. apply (F1 p b Hb).
+  - intros p b j Hb Hold Hc. left. destruct (Z.eq_dec b (fst bk)) as [E|N]; [|rewrite (F2 b N); exact Hc].
+    subst b. assert (p = q) as ->.
+    { destruct (bool_dec p q) as [Ep|Np]; [exact Ep|]. exfalso. pose proof Jw as (_ & (_ & _ & _ & _ & _ & _ & P7 & _) & _).
+      destruct (P7 bk (or_intror eq_refl)) as (_ & _ & Ob). exact (Jq_own_disj q (Some bk) w p q (fst bk) Jw Np Hold Ob). }
+    rewrite (F3 Hb). right. exact Hc.
+  - intros p b j _ Hl. left. rewrite (lb_of _ w p (pvDeleteBlock_lives C w q bk) (PoolConcProofs.pvDeleteBlock_caches C w q bk)). exact Hl.
+  - intros b j E Hb. left. inversion E; subst bk. cbn [fst snd] in *. rewrite (F3 Hb). left. reflexivity.
+Qed.
+
+(* ---------- composite operations: invariant and completeness together ---------- *)
+Definition JC (q : bool) (h : option blk) (w : cworld) : Prop := Jq C q h w /\ Compl q h w.
+
+Lemma JC_any q w : JC false None w <-> JC q None w.
+Proof.
+  unfold JC. destruct q; [|reflexivity]. split; intros (a & b); (split; [apply (Jq_sym C) in a; exact a|apply Compl_sym in b; exact b]).
+Qed.
+
+Lemma JC_sym q w : JC q None w -> JC (negb q) None w.
+Proof. intros (a & b). split; [apply (proj1 (Jq_sym C q w)); exact a|apply Compl_sym in b; exact b]. Qed.
+
+Lemma pvNewBlock_JC q w : JC q None w -> JC q (Some (snd (pvNewBlock C w q))) (fst (pvNewBlock C w q)).
+Proof.
+  intros (Jw & Cw). unfold pvNewBlock. cbv zeta.
+  set (w0 := match lfree (getp w q) with [] => attach_new C w q | _ :: _ => w end).
+  assert (JC q None w0 /\ lfree (getp w0 q) <> []) as ((J0 & C0) & N0).
+  { unfold w0. destruct (lfree (getp w q)) eqn:E.
+    - split; [split; [apply attach_new_J; assumption|apply attach_new_C; assumption]|]. rewrite attach_new_lfree, E. discriminate.
+    - split; [split; assumption|]. rewrite E. discriminate. }
+  clearbody w0. destruct (lfree (getp w0 q)) as [|head rest0] eqn:E0; [congruence|]. cbn [hd0 tl0].
+  set (w1 := if (fc w0 head =? 1) && (hd0 rest0 =? 0) then attach_new C w0 q else w0).
+  assert (JC q None w1 /\ exists rest1, lfree (getp w1 q) = head :: rest1 /\ (fc w1 head = 1 -> rest1 <> [])) as ((J1 & C1) & rest1 & E1 & H1).
+  { unfold w1. destruct (Z.eqb_spec (fc w0 head) 1) as [F|F]; destruct (Z.eqb_spec (hd0 rest0) 0) as [Z0|Z0]; cbn [andb].
+    - split; [split; [apply attach_new_J; assumption|apply attach_new_C; assumption]|]. exists (rest0 ++ [fresh w0]). rewrite attach_new_lfree, E0. split; [reflexivity|].
+      intros _. destruct rest0; discriminate.
+    - split; [split; assumption|]. exists rest0. split; [exact E0|]. intros _ E. rewrite E in Z0. apply Z0. reflexivity.
+    - split; [split; assumption|]. exists rest0. split; [exact E0|]. intros F'. congruence.
+    - split; [split; assumption|]. exists rest0. split; [exact E0|]. intros F'. congruence. }
+  clearbody w1. destruct (take_J C q w1 head rest1 J1 E1 H1) as (Es & Jt). rewrite Es. split; [exact Jt|].
+  apply take_C with (rest := rest1); assumption.
+Qed.
+
+Lemma flush_loop_JC q : forall l w, JC q None w -> cache (getp w q) = l -> JC q None (flush_loop C l w q).
+Proof.
+  induction l as [|bk rest IH]; intros w (Jw & Cw) E; [split; assumption|]. cbn [flush_loop]. apply IH.
+  - pose proof (cache_pop_J C q bk rest w Jw E) as J1. split; [apply pvDeleteBlock_J; assumption|].
+    apply pvDeleteBlock_C; [exact J1|]. apply cache_pop_C; assumption.
+  - rewrite (cache_of_caches _ _ q (PoolConcProofs.pvDeleteBlock_caches C (set_cache w q rest) q bk)). apply cache_set_cache.
+Qed.
+Lemma flush_JC q w : JC q None w -> JC q None (flush C w q).
+Proof. intros H. unfold flush. apply flush_loop_JC; [exact H|reflexivity]. Qed.
+
+Variable CF : Z.
+Variable uc : bool.
+
+Lemma Allocate_JC q w : JC q None w -> JC q None (fst (Allocate C uc w q)).
+Proof.
+  intros (Jw & Cw). unfold Allocate.
+  assert (JC q None (fst (let '(w0, bk) := pvNewBlock C w q in (add_live w0 q bk, bk)))) as ViaNew.
+  { pose proof (pvNewBlock_JC q w (conj Jw Cw)) as (JN & CN). destruct (pvNewBlock C w q) as [w0 bk]. cbn [fst snd] in *.
+    split; [apply add_live_J; exact JN|apply add_live_C; exact CN]. }
+  destruct (cache (getp w q)) as [|bk rest] eqn:E; [exact ViaNew|]. destruct uc; [|exact ViaNew].
+  cbn [fst]. split; [apply add_live_J; apply cache_pop_J with (rest := rest); assumption|apply add_live_C; apply cache_pop_C; assumption].
+Qed.
+
+Lemma Deallocate_JC q w bk : JC q None w -> In bk (live (getp w q)) -> JC q None (Deallocate C CF uc w q bk).
+Proof.
+  intros (Jw & Cw) Hl. unfold Deallocate. destruct uc.
+  - cbv zeta. set (w0 := if CF <=? lenz (cache (getp w q)) then flush C w q else w).
+    assert (JC q None w0 /\ In bk (live (getp w0 q))) as ((J0 & C0) & H0).
+    { unfold w0. destruct (CF <=? lenz (cache (getp w q))); [|split; [split|]; assumption]. split; [apply flush_JC; split; assumption|].
+      unfold flush. rewrite (live_of_lives _ _ q (flush_loop_lives C q _ w)). exact Hl. }
+    clearbody w0. pose proof (remove_live_J C q bk w0 J0 H0) as J1.
+    assert (cache (getp (remove_live w0 q bk) q) = cache (getp w0 q)) as Ec by (unfold remove_live; rewrite getp_setp_eq; reflexivity).
+    split; [apply cache_push_J; exact J1|]. apply cache_push_C. apply remove_live_C. exact C0.
+  - split; [apply pvDeleteBlock_J; [exact HC|apply remove_live_J; assumption]|].
+    apply pvDeleteBlock_C; [apply remove_live_J; assumption|apply remove_live_C; exact Cw].
+Qed.
+
+Lemma Compl_merge d w1 x' y' :
+  Compl d None w1 -> cache (getp w1 (negb d)) = [] ->
+  (forall b, In b (own x') -> In b (own (getp w1 d)) \/ In b (own (getp w1 (negb d)))) ->
+  (forall bk, In bk (lb (getp w1 d)) \/ In bk (live (getp w1 (negb d))) -> In bk (lb x')) ->
+  own y' = [] ->
+  Compl d None (setp (setp w1 d x') (negb d) y').
+Proof.
+  intros H Ec Ow Lb Ey p b j Hb Hj.
+  assert (forall y, chain_of (setp (setp w1 d x') (negb d) y') y = chain_of w1 y) as Ch by (intros y; rewrite !chain_of_setp; reflexivity).
+  rewrite Ch. destruct (bool_dec p d) as [->|N].
+  - rewrite getp_setp_neq in Hb by (destruct d; discriminate). rewrite getp_setp_eq in Hb.
+    rewrite getp_setp_neq by (destruct d; discriminate). rewrite getp_setp_eq.
+    destruct (Ow b Hb) as [Hx|Hy].
+    + destruct (H d b j Hx Hj) as [K|[K|(_ & K)]]; [auto|right; left; apply Lb; auto|discriminate].
+    + destruct (H (negb d) b j Hy Hj) as [K|[K|(_ & K)]]; [auto| |discriminate]. right. left. apply Lb. right.
+      unfold lb in K. rewrite Ec, app_nil_r in K. exact K.
+  - assert (p = negb d) as -> by (destruct p, d; try congruence; reflexivity). rewrite getp_setp_eq in Hb. rewrite Ey in Hb. destruct Hb.
+Qed.
+
+Lemma MergeFrom_JC d w : (uc = false -> cache (getp w (negb d)) = []) -> JC d None w -> JC d None (MergeFrom C uc w d).
+Proof.
+  intros Hnc (Jw & Cw). split; [apply MergeFrom_J; assumption|].
+  unfold MergeFrom. cbv zeta. set (w1 := if uc then flush C w (negb d) else w).
+  assert (JC d None w1 /\ cache (getp w1 (negb d)) = []) as ((J1 & C1) & Ec).
+  { unfold w1. destruct uc.
+    - split; [|apply PoolConcProofs.flush_cache_empty]. pose proof (JC_sym _ _ (flush_JC (negb d) w (JC_sym d w (conj Jw Cw)))) as K. rewrite negb_involutive in K. exact K.
+    - split; [split; assumption|apply Hnc; reflexivity]. }
+  clearbody w1. pose proof J1 as (_ & Px & Py & _). set (x := getp w1 d) in *. set (y := getp w1 (negb d)) in *.
+  pose proof Py as (_ & _ & _ & _ & Q5 & _).
+  destruct (lfree y) as [|hy ty] eqn:Ey.
+  - assert (lfull y = []) as Efy by (apply Q5; reflexivity). rewrite Efy.
+    apply Compl_merge; [exact C1|exact Ec| | |reflexivity]; fold x y.
+    + intros b Hb. left. exact Hb.
+    + intros bk Hk. unfold lb in *. cbn [live cache]. rewrite !in_app_iff in *. tauto.
+  - destruct (lfree x) as [|hx tx] eqn:Ex.
+    + apply Compl_merge; [exact C1|exact Ec| | |reflexivity]; fold x y.
+      * intros b Hb. right. unfold own in *. cbn [lfull lfree] in Hb. rewrite Ey. exact Hb.
+      * intros bk Hk. unfold lb in *. cbn [live cache]. rewrite !in_app_iff in *. tauto.
+    + apply Compl_merge; [exact C1|exact Ec| | |reflexivity]; fold x y.
+      * intros b Hb. unfold own in *. cbn [lfull lfree] in Hb. rewrite rev0_spec, app_nil_r in Hb. rewrite Ex, Ey.
+        rewrite !in_app_iff in *. rewrite <- in_rev in Hb. tauto.
+      * intros bk Hk. unfold lb in *. cbn [live cache]. rewrite !in_app_iff in *. tauto.
+Qed.
+
+Lemma DeallocateAll_C q w : Jq C q None w -> Compl q None w -> Compl q None (DeallocateAll w q).
+Proof.
+  intros Jw H. unfold DeallocateAll. destruct (lfree (getp w q)) as [|h t] eqn:El; [exact H|]. rewrite <- El.
+  set (x := getp w q). set (l1 := rev0 (lfull x) []). set (wa := return_all w l1). set (wb := return_all wa (lfree x)).
+  destruct (return_all_spec l1 w) as (A1 & _ & _ & A4 & _). fold wa in A1, A4.
+  destruct (return_all_spec (lfree x) wa) as (B1 & _ & _ & B4 & _). fold wb in B1, B4.
+  intros p b j Hb Hj. destruct (bool_dec p q) as [->|N]; [rewrite getp_setp_eq in Hb; destruct Hb|].
+  rewrite getp_setp_neq in Hb by exact N. rewrite getp_setp_neq by exact N. rewrite chain_of_setp.
+  rewrite B1, A1 in *.
+  assert (~ In b (own x)) as Nx by (intro Hx; exact (Jq_own_disj q None w p q b Jw N Hb Hx)).
+  assert (~ In b (lfree x) /\ ~ In b l1) as (N1 & N2).
+  { split; intro K; apply Nx; unfold own; apply in_or_app; [right; exact K|left]. unfold l1 in K. rewrite rev0_spec, app_nil_r, <- in_rev in K. exact K. }
+  rewrite (proj2 (B4 b N1)), (proj2 (A4 b N2)).
+  destruct (H p b j Hb Hj) as [K|[K|(E & _)]]; auto; congruence.
+Qed.
+
+Lemma Swap_C w : Compl false None w -> Compl false None (Swap w).
+Proof.
+  intros H p b j Hb Hj. assert (getp (Swap w) p = getp w (negb p)) as E by (destruct p; reflexivity). rewrite E in *.
+  assert (chain_of (Swap w) b = chain_of w b) as -> by (apply same_maps_chain; repeat split).
+  destruct (H (negb p) b j Hb Hj) as [K|[K|(_ & K)]]; auto. discriminate.
+Qed.
+
+(* ---------- DeallocateIf / pvDeleteBlocks ---------- *)
+Lemma memz_In i l : memz i l = true <-> In i l.
+Proof.
+  induction l as [|a t IH]; simpl; [split; [discriminate|tauto]|]. destruct (Z.eqb_spec a i) as [->|N]; simpl; [tauto|]. rewrite IH. intuition congruence.
+Qed.
+
+Section DelIf.
+Variable f : blk -> bool.
+Variable p : bool.
+
+Definition del_step (b : Z) (freeBits : list Z) (w : cworld) (i : Z) : cworld :=
+  if memz i freeBits then w else if f (b, i) then pvDeleteBlock C (remove_live w p (b, i)) p (b, i) else w.
+
+Lemma del_loop_JC b freeBits : forall l w,
+  NoDup l -> JC p None w -> cache (getp w p) = [] ->
+  (forall i, In i l -> ~ In i freeBits -> In (b, i) (live (getp w p))) ->
+  let w' := foldl (del_step b freeBits) l w in
+  JC p None w' /\ cache (getp w' p) = [] /\
+  (forall y, y <> b -> In y (own (getp w p)) -> In y (own (getp w' p))) /\
+  (forall bk, In bk (live (getp w' p)) -> In bk (live (getp w p))) /\
+  (forall bk, In bk (live (getp w p)) -> fst bk <> b -> In bk (live (getp w' p))).
+Proof.
+  induction l as [|i t IH]; intros w ND (Jw & Cw) Ec Hl; cbv zeta.
+  - simpl. split; [split; assumption|]. split; [exact Ec|]. split; [auto|]. split; auto.
+  - cbn [foldl]. inversion ND as [|? ? Ni NDt]; subst.
+    assert (let w1 := del_step b freeBits w i in
+            JC p None w1 /\ cache (getp w1 p) = [] /\
+            (forall y, y <> b -> In y (own (getp w p)) -> In y (own (getp w1 p))) /\
+            (forall bk, In bk (live (getp w1 p)) -> In bk (live (getp w p))) /\
+            (forall bk, In bk (live (getp w p)) -> bk <> (b, i) -> In bk (live (getp w1 p)))) as S.
+    { cbv zeta. unfold del_step. destruct (memz i freeBits) eqn:M; [split; [split; assumption|]; split; [exact Ec|]; split; [auto|]; split; auto|].
+      destruct (f (b, i)); [|split; [split; assumption|]; split; [exact Ec|]; split; [auto|]; split; auto].
+      assert (In (b, i) (live (getp w p))) as Hin.
+      { apply Hl; [left; reflexivity|]. intro K. apply memz_In in K. congruence. }
+      pose proof (remove_live_J C p (b, i) w Jw Hin) as J1. pose proof (remove_live_C p (b, i) w Cw) as C1.
+      set (w0 := remove_live w p (b, i)) in *.
+      destruct (pvDeleteBlock_effect p w0 (b, i) J1) as (_ & F4 & _). cbv zeta in F4. cbn [fst] in F4.
+      assert (forall q, live (getp (pvDeleteBlock C w0 p (b, i)) q) = live (getp w0 q)) as Lv
+        by (intros q; apply live_of_lives; apply pvDeleteBlock_lives).
+      assert (live (getp w0 p) = removeb (b, i) (live (getp w p))) as L0 by (unfold w0, remove_live; rewrite getp_setp_eq; reflexivity).
+      assert (own (getp w0 p) = own (getp w p)) as O0 by (unfold w0, remove_live; rewrite getp_setp_eq; reflexivity).
+      split; [split; [apply pvDeleteBlock_J; assumption|apply pvDeleteBlock_C; assumption]|].
+      split; [rewrite (cache_of_caches _ _ p (PoolConcProofs.pvDeleteBlock_caches C w0 p (b, i))); unfold w0, remove_live; rewrite getp_setp_eq; exact Ec|].
+      split; [intros y N Hy; apply F4; [exact N|rewrite O0; exact Hy]|].
+      split; [intros bk Hk; rewrite Lv, L0 in Hk; apply removeb_In in Hk; tauto|].
+      intros bk Hk N. rewrite Lv, L0. apply removeb_In. tauto. }
+    cbv zeta in S. destruct S as (J1 & E1 & O1 & L1 & K1).
+    destruct (IH (del_step b freeBits w i) NDt J1 E1) as (J2 & E2 & O2 & L2 & K2).
+    { intros i' Hi' Nf. apply K1; [apply Hl; [right; exact Hi'|exact Nf]|]. intro E. inversion E; subst. contradiction. }
+    cbv zeta in *. split; [exact J2|]. split; [exact E2|]. split; [intros y N Hy; apply O2; [exact N|apply O1; assumption]|].
+    split; [intros bk Hk; apply L1; apply L2; exact Hk|].
+    intros bk Hk N. apply K2; [|exact N]. apply K1; [exact Hk|]. intro E. apply N. rewrite E. reflexivity.
+Qed.
+
+Lemma pvDeleteBlocks_is_loop w b : pvDeleteBlocks C f w p b = foldl (del_step b (chain_of w b)) (upto (Z.to_nat C) 0) w.
+Proof. reflexivity. Qed.
+
+(* one buffer: every block of it that is not free is live (completeness, empty cache) *)
+Lemma pvDeleteBlocks_JC w b :
+  JC p None w -> cache (getp w p) = [] -> In b (own (getp w p)) ->
+  let w' := pvDeleteBlocks C f w p b in
+  JC p None w' /\ cache (getp w' p) = [] /\
+  (forall y, y <> b -> In y (own (getp w p)) -> In y (own (getp w' p))) /\
+  (forall bk, In bk (live (getp w' p)) -> In bk (live (getp w p))) /\
+  (forall bk, In bk (live (getp w p)) -> fst bk <> b -> In bk (live (getp w' p))).
+Proof.
+  intros (Jw & Cw) Ec Ob. rewrite pvDeleteBlocks_is_loop. apply del_loop_JC; [apply PoolConcProofs.upto_NoDup|split; assumption|exact Ec|].
+  intros i Hi Nf. apply PoolConcProofs.upto_In in Hi.
+  destruct (Cw p b i Ob ltac:(lia)) as [K|[K|(_ & K)]]; [contradiction| |discriminate].
+  unfold lb in K. rewrite Ec, app_nil_r in K. exact K.
+Qed.
+
+(* a snapshot list of buffers, all still owned *)
+Lemma del_buffers_JC : forall L w,
+  NoDup L -> (forall b, In b L -> In b (own (getp w p))) -> JC p None w -> cache (getp w p) = [] ->
+  let w' := foldl (fun w b => pvDeleteBlocks C f w p b) L w in
+  JC p None w' /\ cache (getp w' p) = [] /\ (forall bk, In bk (live (getp w' p)) -> In bk (live (getp w p))).
+Proof.
+  induction L as [|b t IH]; intros w ND Ow Jw Ec; cbv zeta; [simpl; auto|]. cbn [foldl]. inversion ND as [|? ? Nb NDt]; subst.
+  destruct (pvDeleteBlocks_JC w b Jw Ec (Ow b (or_introl eq_refl))) as (J1 & E1 & O1 & L1 & _). cbv zeta in *.
+  assert (forall y, In y t -> In y (own (getp (pvDeleteBlocks C f w p b) p))) as Ow'.
+  { intros y Hy. apply O1; [intro; subst; contradiction|apply Ow; right; exact Hy]. }
+  destruct (IH (pvDeleteBlocks C f w p b) NDt Ow' J1 E1) as (J2 & E2 & L2).
+  cbv zeta in *. split; [exact J2|]. split; [exact E2|]. intros bk Hk. apply L1. apply L2. exact Hk.
+Qed.
+End DelIf.
+
+(* DeallocateIf 360-384 keeps the invariant (with completeness) and only removes live blocks *)
+Lemma DeallocateIf_JC p f w :
+  (uc = false -> cache (getp w p) = []) -> JC p None w ->
+  JC p None (DeallocateIf C uc w p f) /\
+  (forall bk, In bk (live (getp (DeallocateIf C uc w p f) p)) -> In bk (live (getp w p))).
+Proof.
+  intros Hnc Jw. unfold DeallocateIf. cbv zeta.
+  set (w1 := if uc then flush C w p else w).
+  assert (JC p None w1 /\ cache (getp w1 p) = [] /\ live (getp w1 p) = live (getp w p)) as (J1 & E1 & L1).
+  { unfold w1. destruct uc; [|split; [exact Jw|split; [apply Hnc; reflexivity|reflexivity]]].
+    split; [apply flush_JC; exact Jw|]. split; [apply PoolConcProofs.flush_cache_empty|].
+    unfold flush. apply live_of_lives. apply flush_loop_lives. }
+  clearbody w1. destruct (acount (getp w1 p) =? 0); [split; [exact J1|rewrite L1; auto]|].
+  pose proof J1 as ((_ & (P1 & _) & _) & _). unfold own in P1. apply NoDup_app_iff in P1. destruct P1 as (NDf & NDr & _).
+  assert (forall b, In b (lfree (getp w1 p)) -> In b (own (getp w1 p))) as Ow1 by (intros b Hb; unfold own; apply in_or_app; right; exact Hb).
+  destruct (del_buffers_JC f p (lfree (getp w1 p)) w1 NDr Ow1 J1 E1) as (J2 & E2 & L2).
+  cbv zeta in *. set (w2 := foldl (fun w b => pvDeleteBlocks C f w p b) (lfree (getp w1 p)) w1) in *.
+  pose proof J2 as ((_ & (Q1 & _) & _) & _). unfold own in Q1. apply NoDup_app_iff in Q1. destruct Q1 as (NDf2 & _ & _).
+  assert (NoDup (rev0 (lfull (getp w2 p)) [])) as ND2 by (rewrite rev0_spec, app_nil_r; apply NoDup_rev; exact NDf2).
+  assert (forall b, In b (rev0 (lfull (getp w2 p)) []) -> In b (own (getp w2 p))) as Ow2.
+  { intros b Hb. rewrite rev0_spec, app_nil_r, <- in_rev in Hb. unfold own. apply in_or_app. left. exact Hb. }
+  destruct (del_buffers_JC f p (rev0 (lfull (getp w2 p)) []) w2 ND2 Ow2 J2 E2) as (J3 & E3 & L3).
+  cbv zeta in *. split; [exact J3|]. intros bk Hk. rewrite <- L1. apply L2. apply L3. exact Hk.
+Qed.
+
+(* ---------- the full history alphabet: the operations of PoolInv.gop and DeallocateIf ---------- *)
+Lemma gstep_JC w o : JC false None w -> nocache uc w -> JC false None (gstep C CF uc w o).
+Proof.
+  intros Jw Nc. destruct o as [p|p bk|d|p| |d]; simpl.
+  - apply (proj2 (JC_any p _)). apply Allocate_JC. apply (proj1 (JC_any p _)). exact Jw.
+  - destruct (memb bk (live (getp w p))) eqn:M; [|exact Jw]. apply (proj2 (JC_any p _)).
+    apply Deallocate_JC; [apply (proj1 (JC_any p _)); exact Jw|apply memb_In; exact M].
+  - apply (proj2 (JC_any d _)). apply MergeFrom_JC; [|apply (proj1 (JC_any d _)); exact Jw].
+    intros U. specialize (Nc U). unfold PoolConcProofs.caches in Nc. apply pair_equal_spec in Nc. destruct Nc. destruct d; assumption.
+  - apply (proj2 (JC_any p _)). apply (proj1 (JC_any p w)) in Jw. destruct Jw as (a & b). split; [apply DeallocateAll_J; exact a|apply DeallocateAll_C; assumption].
+  - destruct Jw as (a & b). split; [apply Swap_J; exact a|apply Swap_C; exact b].
+  - unfold MoveAssign. destruct (acount (getp w d) =? 0); [|exact Jw].
+    apply (proj1 (JC_any d w)) in Jw. destruct Jw as (a & b).
+    assert (JC false None (DeallocateAll w d)) as (a' & b') by (apply (proj2 (JC_any d _)); split; [apply DeallocateAll_J; exact a|apply DeallocateAll_C; assumption]).
+    split; [apply Swap_J; exact a'|apply Swap_C; exact b'].
+Qed.
+
+Inductive fop := FG (o : gop) | FIf (p : bool) (f : blk -> bool).
+Definition fstep (w : cworld) (o : fop) : cworld :=
+  match o with FG o => gstep C CF uc w o | FIf p f => DeallocateIf C uc w p f end.
+Definition frun (ops : list fop) : cworld := foldl fstep ops empty_world.
+
+Lemma fstep_nocache w o : nocache uc w -> nocache uc (fstep w o).
+Proof.
+  destruct o as [o|p f]; [apply gstep_nocache|]. intros H U. specialize (H U). simpl. unfold DeallocateIf. rewrite U. cbv zeta.
+  destruct (acount (getp w p) =? 0); [exact H|].
+  rewrite PoolConcProofs.foldl_caches by (intros; apply PoolConcProofs.pvDeleteBlocks_caches).
+  rewrite PoolConcProofs.foldl_caches by (intros; apply PoolConcProofs.pvDeleteBlocks_caches). exact H.
+Qed.
+
+Lemma fstep_JC w o : JC false None w -> nocache uc w -> JC false None (fstep w o).
+Proof.
+  intros Jw Nc. destruct o as [o|p f]; [apply gstep_JC; assumption|]. simpl. apply (proj2 (JC_any p _)).
+  apply DeallocateIf_JC; [|apply (proj1 (JC_any p _)); exact Jw].
+  intros U. specialize (Nc U). unfold PoolConcProofs.caches in Nc. apply pair_equal_spec in Nc. destruct Nc. destruct p; assumption.
+Qed.
+
+Lemma JC_empty : JC false None empty_world.
+Proof. split; [apply J_empty|]. intros p b j Hb. destruct p; destruct Hb. Qed.
+
+(* THE INVARIANT WITH THE COMPLETENESS CLAUSE HOLDS AFTER EVERY HISTORY over the full alphabet: Allocate, Deallocate (of live
+   blocks), MergeFrom, DeallocateAll, Swap, move assignment and DeallocateIf, on both pools *)
+Theorem JC_all_histories ops : J C (frun ops) /\ Compl false None (frun ops) /\ nocache uc (frun ops).
+Proof.
+  assert (JC false None empty_world /\ nocache uc empty_world) as B by (split; [apply JC_empty|intros _; reflexivity]).
+  unfold frun. revert B. generalize empty_world. induction ops as [|o t IH]; intros w (Jw & Nw); simpl.
+  - destruct Jw as (a & b). split; [exact a|split; [exact b|exact Nw]].
+  - apply IH. split; [apply fstep_JC; assumption|apply fstep_nocache; assumption].
+Qed.
+
+(* DeallocateIf frees only blocks that were live *)
+Theorem DeallocateIf_only_live ops p f :
+  let w := frun ops in forall bk, In bk (live (getp (DeallocateIf C uc w p f) p)) -> In bk (live (getp w p)).
+Proof.
+  cbv zeta. destruct (JC_all_histories ops) as (Jw & Cw & Nw). intros bk.
+  apply (DeallocateIf_JC p f (frun ops)); [|apply (proj1 (JC_any p _)); split; assumption].
+  intros U. specialize (Nw U). unfold PoolConcProofs.caches in Nw. apply pair_equal_spec in Nw. destruct Nw. destruct p; assumption.
+Qed.
+
 Lemma ghost_steps q bk w :
   (Compl q (Some bk) w -> Compl q None (add_live w q bk)) /\
   (Compl q None w -> Compl q (Some bk) (remove_live w q bk)) /\
